@@ -177,6 +177,8 @@ pub struct DeviceStats {
     pub al_served: Vec<u8>,
     pub sii_reads: u32,
     pub sii_writes: Vec<(u16, [u8; 2])>,
+    /// Every SII write command, also the ones answered with a command error
+    pub sii_write_cmds: Vec<(u16, [u8; 2])>,
     pub mailbox_requests: Vec<Vec<u8>>,
     pub downloads: Vec<(u16, u8, Vec<u8>)>,
     pub uploads: Vec<(u16, u8)>,
@@ -214,6 +216,13 @@ pub struct Device {
     pub endless: Option<Vec<u8>>,
     /// Device is unplugged: it neither sees nor answers any datagram
     pub absent: bool,
+    /// Each EEPROM word is refused (command error) this many times before a write to it is
+    /// accepted
+    pub sii_write_naks: u8,
+    sii_nak_count: (u16, u8),
+    sii_pending: Option<(usize, [u8; 8])>,
+    /// The SII interface stays busy for ever after the next command
+    pub sii_stuck: bool,
     /// The system time register answers this value (C18: chosen reference times)
     pub sys_time_force: Option<u64>,
     /// Every write that touched 0x0980..0x09b0 (address, data)
@@ -369,6 +378,10 @@ impl Device {
             segmented: None,
             scripted_replies: Default::default(),
             absent: false,
+            sii_write_naks: 0,
+            sii_nak_count: (0xffff, 0),
+            sii_pending: None,
+            sii_stuck: false,
             sys_time_force: None,
             dc_sync_log: Vec::new(),
             endless_armed: false,
@@ -852,22 +865,45 @@ impl Device {
             self.stats.sii_reads += 1;
 
             let n = if self.spec.chunk8 { 8 } else { 4 };
+            let mut data = [0u8; 8];
 
             for i in 0..n {
-                self.mem[R_SII_DATA + i] = *self.eeprom.get(addr * 2 + i).unwrap_or(&0xff);
+                data[i] = *self.eeprom.get(addr * 2 + i).unwrap_or(&0xff);
             }
 
             ctl &= !0x0100;
             self.sii_busy_left = self.spec.sii_busy_polls;
+
+            if self.sii_busy_left == 0 && !self.sii_stuck {
+                self.mem[R_SII_DATA..R_SII_DATA + n].copy_from_slice(&data[..n]);
+            } else {
+                // the data register is only valid once the interface is no longer busy
+                self.mem[R_SII_DATA..R_SII_DATA + n].fill(0xee);
+                self.sii_pending = Some((n, data));
+            }
         } else if new & 0x0200 != 0 {
             // write (needs write enable bit 0)
             if new & 0x0001 != 0 {
                 let d = [self.mem[R_SII_DATA], self.mem[R_SII_DATA + 1]];
 
-                self.stats.sii_writes.push((addr as u16, d));
+                self.stats.sii_write_cmds.push((addr as u16, d));
 
-                if addr * 2 + 2 <= self.eeprom.len() {
-                    self.eeprom[addr * 2..addr * 2 + 2].copy_from_slice(&d);
+                if self.sii_nak_count.0 != addr as u16 {
+                    self.sii_nak_count = (addr as u16, 0);
+                }
+
+                if self.sii_nak_count.1 < self.sii_write_naks {
+                    // command error: the word is not stored
+                    self.sii_nak_count.1 += 1;
+                    ctl |= 0x2000;
+                } else {
+                    self.sii_nak_count = (0xffff, 0);
+                    ctl &= !0x2000;
+                    self.stats.sii_writes.push((addr as u16, d));
+
+                    if addr * 2 + 2 <= self.eeprom.len() {
+                        self.eeprom[addr * 2..addr * 2 + 2].copy_from_slice(&d);
+                    }
                 }
 
                 self.sii_busy_left = self.spec.sii_busy_polls;
@@ -888,10 +924,16 @@ impl Device {
     fn on_sii_status_read(&mut self) {
         let mut ctl = rd16(&self.mem, R_SII_CONTROL);
 
-        if self.sii_busy_left > 0 {
+        if self.sii_stuck {
+            ctl |= 0x8000;
+        } else if self.sii_busy_left > 0 {
             self.sii_busy_left -= 1;
             ctl |= 0x8000;
         } else {
+            if let Some((n, data)) = self.sii_pending.take() {
+                self.mem[R_SII_DATA..R_SII_DATA + n].copy_from_slice(&data[..n]);
+            }
+
             ctl &= !0x8000;
         }
 
